@@ -16,6 +16,9 @@ import (
 // lies in [0,n), hence d == 0 iff an atom of g is 0 or u = v as integers. Any other shape returns nil and
 // is handled by the caller as before.
 func (it *Interp) polyIsZeroFactored(d *Poly) *smt.Term {
+	if r := it.polyIsZeroCommon(d); r != nil {
+		return r
+	}
 	if len(d.terms) != 2 {
 		return it.polyIsZeroDifference(d)
 	}
@@ -145,4 +148,62 @@ func (it *Interp) polyIsZeroDifference(d *Poly) *smt.Term {
 		}
 	}
 	return nil
+}
+
+// polyIsZeroCommon: d = g·q with g the greatest common monomial of all terms (non-trivial): d == 0 iff an atom
+// of g is 0 or q == 0. (E.g. the Diffie-Hellman point x_j·(x_i + delta): its vanishing is the vanishing of a
+// factor, which the path condition usually already decides syntactically.)
+func (it *Interp) polyIsZeroCommon(d *Poly) *smt.Term {
+	if len(d.terms) < 2 {
+		return nil
+	}
+	keys := polyKeys(d)
+	first := d.monos[keys[0]]
+	type ae struct {
+		t *smt.Term
+		e int
+	}
+	var common []ae
+	for i, a := range first.atoms {
+		e := first.exps[i]
+		for _, k := range keys[1:] {
+			m := d.monos[k]
+			f := 0
+			for j, t := range m.atoms {
+				if t == a {
+					f = m.exps[j]
+				}
+			}
+			e = min(e, f)
+		}
+		if e > 0 {
+			common = append(common, ae{a, e})
+		}
+	}
+	if len(common) == 0 {
+		return nil
+	}
+	q := newPoly()
+	for _, k := range keys {
+		m := d.monos[k]
+		r := unitMono
+		for j, t := range m.atoms {
+			e := m.exps[j]
+			for _, c := range common {
+				if c.t == t {
+					e -= c.e
+				}
+			}
+			for ; e > 0; e-- {
+				r = monoMul(r, &mono{key: strconv.Itoa(t.ID) + "^1", atoms: []*smt.Term{t}, exps: []int{1}})
+			}
+		}
+		q.addTerm(r, d.terms[k])
+	}
+	c := it.C
+	res := it.polyIsZero(q)
+	for _, a := range common {
+		res = c.Or(res, c.Eq(a.t, c.IntI(0)))
+	}
+	return res
 }
